@@ -5,6 +5,7 @@ import (
 	"fmt"
 	"net"
 	"net/http"
+	"strings"
 	"time"
 
 	"verif/journal"
@@ -54,10 +55,32 @@ func (c *Cluster) httpDial(network, addr string) (net.Conn, error) {
 			mode := c.mgmtMode
 			silent := c.silentNodes[node]
 			c.w.mu.Unlock()
+			if strings.HasPrefix(req.URL.Path, "/pools/default/bs/") {
+				// The streaming bucket-config endpoint: the DCP agent (which has no CCCP poller in go-dcp's
+				// configuration) learns cluster-map changes here. The response stays open; each revision is one
+				// chunk, pushed when the scheduler says so (action "cfgpush").
+				bname := strings.TrimPrefix(req.URL.Path, "/pools/default/bs/")
+				c.w.mu.Lock()
+				b := c.buckets[bname]
+				c.w.mu.Unlock()
+				if b == nil {
+					_, _ = fmt.Fprintf(sv, "HTTP/1.1 404 Not Found\r\nContent-Length: 0\r\n\r\n")
+					continue
+				}
+				_, _ = fmt.Fprintf(sv, "HTTP/1.1 200 OK\r\nContent-Type: application/json\r\nTransfer-Encoding: chunked\r\n\r\n")
+				sub := &cfgSub{tag: tag, node: node, member: m, bucket: b, w: sv, sentRev: -1}
+				c.w.mu.Lock()
+				c.cfgSubs = append(c.cfgSubs, sub)
+				c.w.mu.Unlock()
+				c.w.poke()
+				_, _ = br.Peek(1) // blocks until the client closes the connection
+				c.w.mu.Lock()
+				sub.closed = true
+				c.w.mu.Unlock()
+				return
+			}
 			if req.URL.Path != "/" {
-				// the streaming bucket-config endpoint: a real node keeps the response open; nothing is ever sent
-				// (the agents get their configuration over CCCP)
-				continue
+				continue // other mgmt endpoints are not modelled: the request times out
 			}
 			c.w.jl(&journal.Ev{K: journal.KReq, M: m, Vb: -1, S: "HTTP " + req.Method + " " + req.URL.Path, S2: "mgmt", ID: fmt.Sprintf("%s.n%d|http", tag, node)})
 			if mode == "silent" || silent {
@@ -83,4 +106,26 @@ func (c *Cluster) httpDial(network, addr string) (net.Conn, error) {
 		}
 	}()
 	return &netConn{pipeEnd: cl, addr: addr}, nil
+}
+
+// cfgSub is one open streaming-config response.
+type cfgSub struct {
+	tag     string
+	node    int
+	member  int
+	bucket  *Bucket
+	w       *pipeEnd
+	sentRev int64
+	closed  bool
+}
+
+// pushConfig sends the bucket's current cluster map on the streaming response.
+func (c *Cluster) pushConfig(s *cfgSub) {
+	c.w.mu.Lock()
+	body := append(c.configJSON(s.tag, s.bucket), []byte("\n\n\n\n")...)
+	s.sentRev = s.bucket.rev
+	rev := s.bucket.rev
+	c.w.mu.Unlock()
+	c.w.jl(&journal.Ev{K: journal.KNote, M: s.member, Vb: -1, S: "config-sent", S2: "http", I: rev, ID: fmt.Sprintf("%s.n%d|http", s.tag, s.node)})
+	_, _ = fmt.Fprintf(s.w, "%x\r\n%s\r\n", len(body), body)
 }
